@@ -1,5 +1,5 @@
 (* C09 - routers return the declared operation whose template matches the URL. *)
-From KV Require Import Model.Base Model.Lookup Model.ParamCodec Model.Router Proofs.C09Proofs.
+From KV Require Import Model.Base Model.Lookup Model.ParamCodec Model.Router Model.Server Proofs.C09Proofs Proofs.ServerProofs.
 Local Open Scope list_scope.
 
 (* legacy router: whatever node Match returns is reached from the root through a token sequence
@@ -21,7 +21,7 @@ Theorem C09_legacy_match_complete :
 Proof. exact tmatch_complete. Qed.
 Print Assumptions C09_legacy_match_complete.
 
-(* gorilla/mux router (whole-segment templates): parameters reproduce the path; filled templates
+(* gorilla/mux router (segments that are a literal, a variable, or a variable between a literal prefix and suffix): parameters reproduce the path; filled templates
    match; found routes are declared for the method; not-found iff no template matches; templates are
    tried in non-decreasing number of variables (a literal path wins over a templated one) *)
 Theorem C09_gorilla_params_reproduce_path :
@@ -43,6 +43,74 @@ Theorem C09_matching_order_sorted : forall paths, sorted_rb (in_matching_order p
 Proof. exact in_matching_order_sorted. Qed.
 Print Assumptions C09_gorilla_params_reproduce_path.
 
+
+(* ---- servers (openapi3.Server.MatchRawURL, ParameterNames, Servers.MatchURL, legacy FindRoute) ---- *)
+(* the matching loop terminates: the fuel of match_raw_url is never exhausted *)
+Theorem C09_server_match_terminates : forall pat url, match_raw_url pat url <> MFuel.
+Proof. intros pat url. apply match_raw_fuel. auto. Qed.
+(* a match decomposes the URL: the server pattern with its variables replaced by the reported values
+   (a final "/" of the pattern being optional), followed by the remainder, which starts with "/" *)
+Theorem C09_server_match_sound : forall pat url vals rest,
+  match_raw_url pat url = MYes vals rest ->
+  exists names consumed rest0,
+    url = (consumed ++ rest0)%string /\ rest = slashify rest0 /\ String.prefix "/" rest = true /\ fills pat names vals consumed.
+Proof.
+  intros pat url vals rest H. apply match_raw_sound in H.
+  destruct H as (names & vals' & consumed & rest0 & H1 & H2 & H3 & H4 & H5). simpl in H1. subst vals'.
+  exists names, consumed, rest0. auto.
+Qed.
+(* every URL made of the filled pattern and a path is matched, with exactly the values used, when no
+   value contains '/' or the character that follows its variable in the pattern *)
+Theorem C09_server_match_complete : forall pat names vals s rest0,
+  fills pat names vals s -> findable pat vals -> (rest0 = ""%string \/ String.prefix "/" rest0 = true) ->
+  match_raw_url pat (s ++ rest0) = MYes vals (slashify rest0).
+Proof. intros pat names vals s rest0 Hf Hd Hr. apply (match_raw_complete pat names vals s Hf Hd rest0 Hr _ []). auto. Qed.
+(* ParameterNames lists the variables in the order of the values *)
+Theorem C09_server_parameter_names : forall pat names vals s, fills pat names vals s ->
+  parameter_names pat = Some names /\ List.length names = List.length vals.
+Proof. exact fills_parameter_names. Qed.
+(* Servers.MatchURL answers with the first declared server that matches, and with none iff none does *)
+Theorem C09_servers_first_match : forall servers url i ps rest,
+  match_url servers url = Some (i, ps, rest) ->
+  (exists s, nth_error servers i = Some s /\ match_raw_url s url = MYes ps rest) /\
+  forall j s', j < i -> nth_error servers j = Some s' -> forall ps' rest', match_raw_url s' url <> MYes ps' rest'.
+Proof.
+  intros servers url i ps rest H. apply match_url_first in H. destruct H as (j & Hj & Hs & Hall). simpl in Hj. subst j. auto.
+Qed.
+Theorem C09_servers_none_iff : forall servers url,
+  match_url servers url = None <-> forall s, In s servers -> forall ps rest, match_raw_url s url <> MYes ps rest.
+Proof. intros. apply match_url_none. Qed.
+(* the legacy router on a document with servers: a returned route lies under the first matching
+   declared server, and what follows the filled server pattern is what the trie matched *)
+Theorem C09_legacy_with_servers_sound : forall servers root method url lit known r ps oi,
+  servers <> [] ->
+  legacy_find_srv servers root method url lit known = (RFound r ps, oi) ->
+  exists i s names vals consumed rest0 n vals',
+    oi = Some i /\ nth_error servers i = Some s /\ fills s names vals consumed /\ url = (consumed ++ rest0)%string /\
+    (forall j s', j < i -> nth_error servers j = Some s' -> forall v' r', match_raw_url s' url <> MYes v' r') /\
+    tmatch root (strip_trailing_slashes (method ++ " " ++ slashify rest0)) [] = Some (n, vals') /\
+    t_value n = Some r /\ ps = zip_params (t_names n) vals'.
+Proof. exact legacy_find_srv_sound. Qed.
+(* the legacy lookup never panics (the nil node of a declared path that does not match its own pattern was repaired in /repo) *)
+Theorem C09_legacy_find_never_panics : forall root method path lit known w, legacy_find root method path lit known <> RPanicR w.
+Proof.
+  intros root method path lit known w. unfold legacy_find.
+  destruct (tmatch root _ []) as [[n vals]|]; [destruct (t_value n); discriminate|].
+  destruct lit as [ops|]; [|discriminate]. destruct (known && str_in method ops); discriminate.
+Qed.
+Theorem C09_legacy_no_server_not_found : forall servers root method url lit known,
+  servers <> [] -> (forall s, In s servers -> forall ps rest, match_raw_url s url <> MYes ps rest) ->
+  legacy_find_srv servers root method url lit known = (RNotFound, None).
+Proof. exact legacy_find_srv_no_server. Qed.
+Print Assumptions C09_server_match_sound.
+Print Assumptions C09_server_match_complete.
+Print Assumptions C09_legacy_with_servers_sound.
+(* the premises of the completeness theorem are satisfiable *)
+Example C09_server_hypotheses_satisfiable :
+  fills "https://{t}.example.com/v1/" ["t"] ["acme"] "https://acme.example.com/v1" /\
+  findable "https://{t}.example.com/v1/" ["acme"].
+Proof. exact server_fills_example. Qed.
+
 (* refuted witnesses = findings *)
 (* legacy: GET /b is routed to /b/{x} with x = "" (the variable token matches an empty segment) *)
 Theorem C09_refuted_legacy_empty_segment :
@@ -55,3 +123,9 @@ Theorem C09_refuted_gorilla_method_shadow :
   gorilla_find [mkGRoute [SLit ""; SLit "a"; SLit "b"] ["POST"] 0; mkGRoute [SLit ""; SLit "a"; SVar "x"] ["GET"] 1]
                "GET" ["" ; "a"; "b"] = GMethodNotAllowed.
 Proof. vm_compute. reflexivity. Qed.
+(* servers: a value containing the character that follows its variable is cut there, so a URL under
+   the declared server (x = "a-b") is not matched - the guard of C09_server_match_complete is necessary *)
+Theorem C09_refuted_server_value_with_follow_char :
+  fills "http://{x}-api.example.com" ["x"] ["a-b"] "http://a-b-api.example.com" /\
+  match_raw_url "http://{x}-api.example.com" "http://a-b-api.example.com/pets" = MNo.
+Proof. exact server_refuted_value_with_follow_char. Qed.
